@@ -124,9 +124,15 @@ def main():
             # ---- K2: model vs implementation
             # VERIF_NO_ORDERS=1: do not feed the recorded topological orders: the model then uses its own default order oracle
             # (an experiment switch to measure how faithfully that oracle reproduces networkx; never set by ./check)
-            res = model.run(spec, obs['actions'], () if os.environ.get('VERIF_NO_ORDERS') else obs['orders'], obs['descendants'],
-                            hyps=(1 if (s == 0 and frag == 'Plain' and len(spec['nodes']) <= 12) else 0))
+            res = None if obs['verdict'] == 'steplimit' else \
+                model.run(spec, obs['actions'], () if os.environ.get('VERIF_NO_ORDERS') else obs['orders'], obs['descendants'],
+                          hyps=(1 if (s == 0 and frag == 'Plain' and len(spec['nodes']) <= 12) else 0))
             d = []
+            if obs['verdict'] == 'steplimit':
+                # a livelock of the real engine (seen only on shapes of known findings: unbounded re-iteration of a recurrent subgraph with a
+                # switch inside): thousands of actions; the oracle reports it (C02: step limit exceeded), the model is not run on it
+                st['steplimit_runs_not_compared'] += 1
+                res = dict(ambiguous_orders=True)
             # hypotheses of the kind-F theorems, evaluated by the extracted model on the orders recorded from the real chart
             if res.get('plain') and not res.get('ambiguous_orders'):
                 st['plain_programs_runs'] += 1
